@@ -4,6 +4,7 @@ use super::*;
 use crate::verif_nat_util::*;
 use locustdb_serialization::api::AnyVal;
 use locustdb_serialization::event_buffer::ColumnBuffer as WireColumnBuffer;
+use locustdb_serialization::event_buffer::ColumnData;
 
 pub fn dispatch(k: &str, t: &[&str]) -> Option<String> {
     match k {
@@ -29,6 +30,57 @@ pub fn dispatch(k: &str, t: &[&str]) -> Option<String> {
                 InputColumn::NullableFloat(rows, p) => format!("NullableFloat {} {} {}", rows, fmt_vec(&p.iter().map(|x| x.0).collect::<Vec<_>>()), fmt_f64_bits(&p.iter().map(|x| x.1).collect::<Vec<_>>())),
                 InputColumn::Mixed(v) => format!("Mixed {}", v.len()),
             })
+        }
+        "event_buffer_roundtrip" => {
+            // token per table: name=col:Kind:...;col:Kind:...   (see vlib/specs/walcodec.py)
+            use locustdb_serialization::event_buffer::{EventBuffer, TableBuffer};
+            use std::collections::HashMap;
+            let mut eb = EventBuffer::default();
+            for tok in t {
+                let (tname, rest) = tok.split_once('=').unwrap();
+                let mut cols: HashMap<String, WireColumnBuffer> = HashMap::new();
+                if rest != "-" {
+                    for part in rest.split(';') {
+                        let p: Vec<&str> = part.split(':').collect();
+                        let data = match p[1] {
+                            "Empty" => ColumnData::Empty,
+                            "Dense" => ColumnData::Dense(vec_f64_bits(p[2])),
+                            "I64" => ColumnData::I64(vec_of(p[2])),
+                            "Sparse" => ColumnData::Sparse(vec_of::<u64>(p[2]).into_iter().zip(vec_f64_bits(p[3])).collect()),
+                            "SparseI64" => ColumnData::SparseI64(vec_of::<u64>(p[2]).into_iter().zip(vec_of::<i64>(p[3])).collect()),
+                            "String" => ColumnData::String(if p[2].is_empty() { vec![] } else { p[2].split(',').map(|h| unsafe { String::from_utf8_unchecked(unhex(h)) }).collect() }),
+                            _ => ColumnData::Mixed(if p[2].is_empty() { vec![] } else { p[2].split(',').map(|x| {
+                                if x == "n" { AnyVal::Null } else if let Some(r) = x.strip_prefix('i') { AnyVal::Int(num(r)) }
+                                else if let Some(r) = x.strip_prefix('f') { AnyVal::Float(f64::from_bits(num::<u64>(r))) }
+                                else { AnyVal::Str(unsafe { String::from_utf8_unchecked(unhex(&x[1..])) }) } }).collect() }),
+                        };
+                        cols.insert(p[0].to_string(), WireColumnBuffer { data });
+                    }
+                }
+                eb.tables.insert(tname.to_string(), TableBuffer::new(cols));
+            }
+            let bytes = eb.serialize();
+            let back = EventBuffer::deserialize(&bytes).unwrap();
+            let mut names: Vec<&String> = back.tables.keys().collect();
+            names.sort();
+            let mut out = vec![];
+            for n in names {
+                let tb = &back.tables[n];
+                let mut cs: Vec<(&String, &WireColumnBuffer)> = tb.columns().collect();
+                cs.sort_by(|a, b| a.0.cmp(b.0));
+                let parts: Vec<String> = cs.iter().map(|(c, cb)| match &cb.data {
+                    ColumnData::Empty => format!("{}:Empty", c),
+                    ColumnData::Dense(v) => format!("{}:Dense:{}", c, fmt_f64_bits(v)),
+                    ColumnData::I64(v) => format!("{}:I64:{}", c, fmt_vec(v)),
+                    ColumnData::Sparse(v) => format!("{}:Sparse:{}:{}", c, fmt_vec(&v.iter().map(|x| x.0).collect::<Vec<_>>()), fmt_f64_bits(&v.iter().map(|x| x.1).collect::<Vec<_>>())),
+                    ColumnData::SparseI64(v) => format!("{}:SparseI64:{}:{}", c, fmt_vec(&v.iter().map(|x| x.0).collect::<Vec<_>>()), fmt_vec(&v.iter().map(|x| x.1).collect::<Vec<_>>())),
+                    ColumnData::String(v) => format!("{}:String:{}", c, v.iter().map(|s| hex(s.as_bytes())).collect::<Vec<_>>().join(",")),
+                    ColumnData::Mixed(v) => format!("{}:Mixed:{}", c, v.iter().map(|a| match a {
+                        AnyVal::Null => "n".to_string(), AnyVal::Int(i) => format!("i{}", i), AnyVal::Float(f) => format!("f{}", f.to_bits()), AnyVal::Str(s) => format!("s{}", hex(s.as_bytes())) }).collect::<Vec<_>>().join(",")),
+                }).collect();
+                out.push(format!("{}={}@{}", n, tb.len(), if parts.is_empty() { "-".to_string() } else { parts.join(";") }));
+            }
+            Some(out.join(" "))
         }
         _ => None,
     }
